@@ -2038,8 +2038,11 @@ static int bx_check(void) {
   return 0;
 }
 
-enum { BX_NEWX, BX_DELX, BX_REFX, BX_ASSIGNX, BX_PUSH, BX_POP, BX_POPAT0, BX_SET0, BX_PUSHAT0, BX_RESIZE0, BX_RESIZE1, BX_DELC, BX_N };
-static const char* BXN[] = { "X=new(Box,P%d)", "del(X)", "ref(X,P%d)", "assign(X,P%d)", "push(C,P%d)", "pop(C)", "pop_at(C,0)", "set(C,0,P%d)", "push_at(C,P%d,0)", "resize(C,0)", "resize(C,1)", "del(C);C=new" };
+enum { BX_NEWX, BX_DELX, BX_REFX, BX_ASSIGNX, BX_PUSH, BX_POP, BX_POPAT0, BX_SET0, BX_PUSHAT0, BX_RESIZE0, BX_RESIZE1, BX_DELC,
+       /* store-back: the Box is given the very object it already owns - nothing may be finalised, the Box still owns it */
+       BX_ASSIGN_SELF, BX_ASSIGN_OWN, BX_REF_OWN, BX_SET0_SELF, BX_SETLAST_SELF, BX_N };
+static const char* BXN[] = { "X=new(Box,P%d)", "del(X)", "ref(X,P%d)", "assign(X,P%d)", "push(C,P%d)", "pop(C)", "pop_at(C,0)", "set(C,0,P%d)", "push_at(C,P%d,0)", "resize(C,0)", "resize(C,1)", "del(C);C=new",
+  "assign(X,X)%.0d", "assign(X,deref(X))%.0d", "ref(X,deref(X))%.0d", "set(C,0,get(C,0))%.0d", "set(C,-1,get(C,-1))%.0d" };
 static int bx_hasv(int t) { return t == BX_NEWX || t == BX_REFX || t == BX_ASSIGNX || t == BX_PUSH || t == BX_SET0 || t == BX_PUSHAT0; }
 
 static void bx_opname(int op, char* buf, size_t cap) { snprintf(buf, cap, BXN[op / 2], op % 2); }
@@ -2111,6 +2114,23 @@ static int bx_apply(int op) {
     if (e) return raised(e, "set");
     BXR[1] = q; bx_reclaim(old);
     return VF_OK;
+  case BX_ASSIGN_SELF: case BX_ASSIGN_OWN: case BX_REF_OWN:
+    if (!bx_hasX) return VF_SKIP;
+    setop(t == BX_ASSIGN_SELF ? "box/assign-itself" : t == BX_ASSIGN_OWN ? "box/assign-own-object" : "box/ref-own-object");
+    if (t == BX_ASSIGN_SELF) e = VF_CATCH(assign(BXroots[0], BXroots[0]));
+    else if (t == BX_ASSIGN_OWN) e = VF_CATCH(assign(BXroots[0], deref(BXroots[0])));
+    else e = VF_CATCH(ref(BXroots[0], deref(BXroots[0])));
+    if (e) return raised(e, lastop);
+    if (!bx_live(BXR[0].tok)) { vf_violation(L("owned-object-finalised-while-owned"), NULL, "%s: the object the Box owns was finalised although the Box still owns it", lastop); return VF_BAD; }
+    return VF_OK;
+  case BX_SET0_SELF: case BX_SETLAST_SELF: {
+    if (bx_nC == 0) return VF_SKIP;
+    int idx = t == BX_SET0_SELF ? 0 : bx_nC - 1;
+    setop("box-element/set-own-element");
+    e = VF_CATCH(set(BXroots[1], $I(t == BX_SET0_SELF ? 0 : -1), get(BXroots[1], $I(t == BX_SET0_SELF ? 0 : -1))));
+    if (e) return raised(e, "set(C,i,get(C,i))");
+    if (!bx_live(BXR[1 + idx].tok)) { vf_violation(L("owned-object-finalised-while-contained"), NULL, "set(C,i,get(C,i)): the object Box element %d owns was finalised although the element still holds it", idx); return VF_BAD; }
+    return VF_OK; }
   case BX_RESIZE0: case BX_RESIZE1: case BX_DELC: {
     int keep = t == BX_RESIZE1 ? 1 : 0;
     if (t == BX_RESIZE1 && bx_nC < 1) return VF_SKIP;
